@@ -88,3 +88,26 @@ def containers(tc):
         _link("clang++ -std=gnu++17 -g -O1 -fsanitize=address -w -I%s %s/containers_rc.cc %s -lrapidcheck -lm -o %s" % (
             tc.srcdir, HDIR, " ".join(objs), out))
     return ensure(tc, "containers_rc", b)
+
+
+STORE_MODS = "bigint store util stdc opsys cport btree table dword xfloat debug memclim timer format strops ostream buffer fluid list int".split()
+
+
+def store_model(tc, flavour="plain"):
+    """The real allocator (B-tree + conservative collector), no sanitizer: flavour plain = compiler build, rts = -DFOAM_RTS (runtime)."""
+    def b(tc, out):
+        objs = compile_objs(tc, os.path.join(tc.bin, "obj-plain"), STORE_MODS, "clang", "-g -O1 -D" + build.GUARD)
+        d = ""
+        if flavour == "rts":
+            rts = compile_objs(tc, os.path.join(tc.bin, "obj-rts"), ["store"], "clang", "-g -O1 -DFOAM_RTS -D" + build.GUARD)
+            objs = [o for o in objs if not o.endswith("/store.o")] + rts
+            d = "-DFOAM_RTS"
+        _link("clang++ -std=gnu++17 -g -O1 %s -w -I%s %s/store_model.cc %s -lrapidcheck -lm -o %s" % (d, tc.srcdir, HDIR, " ".join(objs), out))
+    return ensure(tc, "store_model_" + flavour, b)
+
+
+def xfloat_check(tc):
+    def b(tc, out):
+        objs = compile_objs(tc, os.path.join(tc.bin, "obj-plain-malloc"), BIGINT_MODS, "clang", "-g -O1 -DSTO_USE_MALLOC")
+        _link("clang++ -std=gnu++17 -g -O2 -w -I%s %s/xfloat_check.cc %s -lm -o %s" % (tc.srcdir, HDIR, " ".join(objs), out))
+    return ensure(tc, "xfloat_check", b)
